@@ -286,11 +286,11 @@ pub fn run(rep: &mut Report) {
     let deep = !rep.quick();
     let q = false;
     let fl = lattice::fl(!q);
-    let dl = lattice::dl(if deep { 2048 } else { 256 }, true);
+    let dl = lattice::dl(if deep { 131_072 } else { 256 }, true);
     rep.bound("FL_size", fl.len() as u64);
     rep.bound("DL_size", dl.len() as u64);
     rep.bound("ulp_tolerance", ULPS);
-    rep.rule = "float lattice FL (powers of two with neighbours, decimal fractions, i64/i128/range thresholds divided by each unit factor +-1 ulp, subnormals, f64::MAX, +-inf, NaN) x 9 units x 4 call forms; duration readers on the duration lattice incl. monotonicity along the sorted lattice; Duration*f64 on (|d| <= 10 000 years) x a float sub-lattice in both operand orders; compose_f64 on a small field product. Oracle: exact integer arithmetic on the decoded floats. Non-trivial = fractional or beyond-i64 product, saturation, negative input, non-finite input.".into();
+    rep.rule = "float lattice FL (powers of two with neighbours, decimal fractions, i64/i128/range thresholds divided by each unit factor +-1 ulp, subnormals, f64::MAX, +-inf, NaN) x 9 units x 4 call forms; duration readers on the duration lattice incl. monotonicity along the sorted lattice; Duration*f64 on (|d| <= 10 000 years) x a float sub-lattice in both operand orders; compose_f64 on a small field product and on a far-range product (one huge field next to a second non-zero field). Oracle: exact integer arithmetic on the decoded floats. Non-trivial = fractional or beyond-i64 product, saturation, negative input, non-finite input.".into();
     rep.assumptions = vec!["Duration::from_parts/to_parts exact (C02)".into(), "x86-64 IEEE-754 double arithmetic for the single f64 multiplication the statement itself prescribes".into()];
     let mut fx = fl.clone();
     fx.extend([f64::INFINITY, f64::NEG_INFINITY, f64::NAN]);
@@ -330,6 +330,26 @@ pub fn run(rep: &mut Report) {
             *slot = cf[(r % 6) as usize];
             r /= 6;
         }
+        j_compose_f64(sign, f, out)
+    });
+    // far range: one huge field (beyond the i64 / i128 / Duration ranges once multiplied by its unit) next to a second
+    // non-zero field of the same sign, every pair of positions, every sign class of the i8 argument
+    let huge: [f64; 7] = [1e5, 1e10, 9.3e18, 2e25, 1e40, 1e300, f64::MAX];
+    let small: [f64; 5] = [0.0, 0.5, 1e7, 1e19, 1e300];
+    let nfar = 5 * 7 * 7 * huge.len() as u64 * small.len() as u64;
+    rep.bound("compose_f64_far", nfar);
+    sweep(rep, "c18.compose_f64[far]", nfar, |i, out| {
+        let mut r = i;
+        let sm = small[(r % 5) as usize];
+        r /= 5;
+        let hg = huge[(r % 7) as usize];
+        r /= 7;
+        let (pi, pj) = ((r % 7) as usize, ((r / 7) % 7) as usize);
+        r /= 49;
+        let sign = [i8::MIN, -1, 0, 1, i8::MAX][r as usize];
+        let mut f = [0f64; 7];
+        f[pj] = sm;
+        f[pi] = hg;
         j_compose_f64(sign, f, out)
     });
 }
